@@ -52,6 +52,11 @@ impl Decode for Led {
 		}
 	}
 }
+/// a Led that can be defaulted (skipped fields are filled with Default)
+pub struct LedDefault(pub Led);
+impl Default for LedDefault {
+	fn default() -> Self { LedDefault(Led::new(7)) }
+}
 impl PartialEq for Led { fn eq(&self, o: &Self) -> bool { self.val == o.val } }
 impl Eq for Led {}
 impl PartialOrd for Led { fn partial_cmp(&self, o: &Self) -> Option<std::cmp::Ordering> { Some(self.cmp(o)) } }
@@ -71,6 +76,10 @@ mod derived {
 	#[derive(Encode, Decode)]
 	#[repr(transparent)]
 	pub struct LedArrT(pub [Led; 3]);
+	/// the only field is skipped: decoding consumes nothing and must fill it with its default, in place too
+	#[derive(Encode, Decode)]
+	#[repr(transparent)]
+	pub struct LedSkip(#[codec(skip)] pub super::LedDefault);
 }
 #[cfg(feature = "derive")]
 use derived::*;
@@ -102,6 +111,9 @@ fn run<T: Decode>(ctx: &mut Ctx, shape: &str, n: usize, f: i64, kind: &str, inp:
 		// a memory limit makes byte 202 a limit error; otherwise it is an ordinary element
 		if kind == "limit" {
 			let mut m = MemTrackingInput::new(&mut s, 1 << 40);
+			T::decode(&mut m)
+		} else if kind == "hooklimit" {
+			let mut m = MemTrackingInput::new(&mut s, 1);
 			T::decode(&mut m)
 		} else {
 			T::decode(&mut s)
@@ -180,6 +192,12 @@ pub fn run_vector(ctx: &mut Ctx, shape: &str, n: usize, f: i64, kind: &str) {
 		"enum1" if n == 1 => { let mut i = vec![0u8]; i.extend(elems(1, f, kind, None)); run::<LedEnum>(ctx, shape, 1, f, kind, i, 1) },
 		#[cfg(feature = "derive")]
 		"boxtransp" if n == 1 => run::<Box<LedT>>(ctx, shape, 1, f, kind, elems(1, f, kind, None), 1),
+		#[cfg(feature = "derive")]
+		"boxtranspskip" if n == 1 => run::<Box<LedSkip>>(ctx, shape, 1, f, kind, vec![], 1),
+		#[cfg(feature = "derive")]
+		"rctranspskip" if n == 1 => run::<Rc<LedSkip>>(ctx, shape, 1, f, kind, vec![], 1),
+		#[cfg(feature = "derive")]
+		"arraytranspskip" if n == 1 => run::<[LedSkip; 3]>(ctx, shape, 1, f, kind, vec![], 3),
 		#[cfg(feature = "derive")]
 		"boxarrtransp3" if n == 3 => run::<Box<LedArrT>>(ctx, shape, 3, f, kind, elems(3, f, kind, None), 3),
 		_ => {},
